@@ -19,13 +19,35 @@ struct Block {
     total: Layout,
     payload: usize,
     live: bool,
+    /// the builder instance this storage belongs to
+    owner: u64,
 }
 
 thread_local! {
     static BLOCKS: RefCell<Vec<Block>> = const { RefCell::new(Vec::new()) };
 }
 
-fn new_block(payload: usize, align: usize) -> *mut u8 {
+thread_local! {
+    static NEXT_OWNER: std::cell::Cell<u64> = const { std::cell::Cell::new(1) };
+}
+fn next_owner() -> u64 {
+    NEXT_OWNER.with(|n| { let v = n.get(); n.set(v + 1); v })
+}
+/// The builder that owned these blocks is gone: so is the storage (poisoned, quarantined).
+fn retire_owner(owner: u64) {
+    untracked(|| unsafe {
+        BLOCKS.with(|b| {
+            for blk in b.borrow_mut().iter_mut() {
+                if blk.owner == owner && blk.live {
+                    blk.live = false;
+                    std::ptr::write_bytes(blk.base.add(GUARD), FREED, blk.payload);
+                }
+            }
+        })
+    })
+}
+
+fn new_block(payload: usize, align: usize, owner: u64) -> *mut u8 {
     untracked(|| unsafe {
         // payload starts GUARD bytes in; GUARD is a multiple of every alignment used
         let total = Layout::from_size_align(GUARD + payload + GUARD, GUARD.max(align)).unwrap();
@@ -34,7 +56,7 @@ fn new_block(payload: usize, align: usize) -> *mut u8 {
         std::ptr::write_bytes(base, G_BYTE, GUARD);
         std::ptr::write_bytes(base.add(GUARD), FRESH, payload);
         std::ptr::write_bytes(base.add(GUARD + payload), G_BYTE, GUARD);
-        BLOCKS.with(|b| b.borrow_mut().push(Block { base, total, payload, live: true }));
+        BLOCKS.with(|b| b.borrow_mut().push(Block { base, total, payload, live: true, owner }));
         base.add(GUARD)
     })
 }
@@ -43,9 +65,12 @@ fn retire_block(ptr: *mut u8) {
     untracked(|| unsafe {
         BLOCKS.with(|b| {
             for blk in b.borrow_mut().iter_mut() {
-                if blk.base.add(GUARD) == ptr && blk.live {
-                    blk.live = false;
-                    std::ptr::write_bytes(ptr, FREED, blk.payload);
+                if blk.base.add(GUARD) == ptr {
+                    if blk.live {
+                        blk.live = false;
+                        std::ptr::write_bytes(ptr, FREED, blk.payload);
+                    }
+                    // else: already released together with its owning builder
                     return;
                 }
             }
@@ -104,14 +129,30 @@ pub fn finish() -> usize {
 
 /// `C0`: capacity (in elements) of freshly built storage - 0 for a backend that allocates on demand,
 /// > 0 for a small-buffer / pooled backend whose storage exists from the start.
-#[derive(Clone, Copy, Default)]
-pub struct Reloc<const C0: usize = 0>;
+///
+/// The builder is STATEFUL: every instance (also every clone) is a distinct owning handle; storage built
+/// through an instance belongs to it and is released (poisoned, quarantined) when that instance is dropped.
+/// A vector therefore has to keep exactly the builder it built its storage with - as it does for pool /
+/// arena style user backends.
+pub struct Reloc<const C0: usize = 0> {
+    owner: u64,
+}
+impl<const C0: usize> Default for Reloc<C0> {
+    fn default() -> Self { Reloc { owner: next_owner() } }
+}
+impl<const C0: usize> Clone for Reloc<C0> {
+    fn clone(&self) -> Self { Reloc { owner: next_owner() } }
+}
+impl<const C0: usize> Drop for Reloc<C0> {
+    fn drop(&mut self) { retire_owner(self.owner) }
+}
 
 pub struct RelocMem {
     ptr: *mut u8,
     size: usize,
     layout: Layout,
     has_block: bool,
+    owner: u64,
 }
 unsafe impl Send for RelocMem {}
 unsafe impl Sync for RelocMem {}
@@ -126,7 +167,7 @@ impl RelocMem {
         let new_ptr = if bytes == 0 {
             self.layout.align() as *mut u8
         } else {
-            new_block(bytes, self.layout.align())
+            new_block(bytes, self.layout.align(), self.owner)
         };
         let keep = old_bytes.min(bytes);
         if keep > 0 {
@@ -147,10 +188,11 @@ impl<const C0: usize> MemBuilder for Reloc<C0> {
         log(Ev::B(element_layout.size(), element_layout.align()));
         let bytes = element_layout.size() * C0;
         RelocMem {
-            ptr: if bytes == 0 { element_layout.align() as *mut u8 } else { new_block(bytes, element_layout.align()) },
+            ptr: if bytes == 0 { element_layout.align() as *mut u8 } else { new_block(bytes, element_layout.align(), self.owner) },
             size: C0,
             layout: element_layout,
             has_block: bytes != 0,
+            owner: self.owner,
         }
     }
 }
